@@ -221,5 +221,16 @@ example : sampleDiscreteFrom [(1 : ℚ), 0, 3] (2 : ℚ) = 2 := by
 example : cum [(1 : ℚ), 0, 3] 2 < 2 ∧ (2 : ℚ) ≤ cum [(1 : ℚ), 0, 3] 3 := by
   norm_num [cum]
 
+/-- the hypotheses of `choice_total` / `choice_lengths_sum` are met by a concrete propensity vector with a zero entry. -/
+example : (∃ j : Nat, j < 3 ∧ sampleDiscreteFrom [(1 : ℝ), 0, 3] ((1 / 2 : ℝ) * 4) = (j : Int) ∧ 0 < [(1 : ℝ), 0, 3][j]!)
+    ∧ ([(1 : ℝ), 0, 3].map (fun v => v / 4)).sum = 1 := by
+  have hpos : ∀ v ∈ [(1 : ℝ), 0, 3], 0 ≤ v := by
+    intro v hv
+    simp only [List.mem_cons, List.not_mem_nil, or_false] at hv
+    rcases hv with rfl | rfl | rfl <;> norm_num
+  have hsum : [(1 : ℝ), 0, 3].sum = 4 := by norm_num
+  exact ⟨choice_total _ 4 (1 / 2) hpos hsum (by norm_num) (by norm_num) (by norm_num),
+    choice_lengths_sum _ 4 hsum (by norm_num)⟩
+
 end law
 end Bioscrape.C05
